@@ -32,3 +32,9 @@ Proof. exact get_escaped_branchless_u32_is_model. Qed.
 Theorem whitespace_classifier_as_written : forall ch, 0 <= ch < 256 ->
   is_whitespace ch = Some ((ch =? 32) || (ch =? 9) || (ch =? 10) || (ch =? 13))%bool.
 Proof. exact is_whitespace_translated. Qed.
+
+From SonicV Require Import Model.Simd Model.FuncsLoop.
+(* src/util/arch/fallback.rs get_nonspace_bits as written: bit i is set iff byte i is not one of the four blanks *)
+Theorem portable_whitespace_classifier_as_written : forall data, (length data <= 64)%nat ->
+  get_nonspace_bits_fallback data = Some (Z.of_N (nonspace_bits (map Z.to_N data))).
+Proof. exact get_nonspace_bits_fallback_is_model. Qed.
